@@ -1,9 +1,307 @@
-import SynthVerif.Model.Adsr
-import SynthVerif.Model.Lfo
-import SynthVerif.Model.Quantizer
-import SynthVerif.Model.Midi
-import SynthVerif.Model.Glide
-import SynthVerif.Model.Ribbon
+import SynthVerif.Props.C15
+import SynthVerif.Props.Interp
+/-!
+# C16 — Ribbon position is the average of the current press only
+
+* `window_is_current_run`: whenever the position is recomputed (the buffer holds `capacity` samples written during
+  the current unbroken run), the averaged window is `take (capacity − discard)` of the **last `capacity` samples
+  written in the current run** — no sample of an earlier press, none of the `discard` newest samples.
+* `fsum_mono`: the f32 sum (and hence the average) does not decrease when any contributing sample increases.
+* `value_range`: `0 ≤ value() ≤ 1` for samples in [0, 1], a boundary in (0, 1] and a correction constant in [0, 1]
+  (pull-up ≥ divider resistance).
+* `retained`: a poll that does not recompute the position (out of range, or buffer not yet full) leaves `value()`
+  unchanged.
+The correction `a − (a − a²)·K` is monotone as a real function for `K ≤ 1`; its f32 evaluation is monotone only up
+to an ulp, so "between the corrected minimum and maximum" is checked by the oracle with that slack (`partial`).
+-/
 namespace C16
-theorem placeholder_to_be_replaced : True := trivial
+open F32
+
+/-! ### the f32 sum is monotone in every summand -/
+
+/-- a sample as documented: finite, in [0, 1] -/
+def Unit01 (x : F32) : Prop := x.isFin = true ∧ 0 ≤ x.val ∧ x.val ≤ 1
+
+/-- partial sums of samples in [0,1] stay finite and bounded by the number of terms -/
+theorem fold_bounded (xs : List F32) (hx : ∀ x ∈ xs, Unit01 x) (a : F32) (m : ℕ) (ha : a.isFin = true)
+    (ha0 : 0 ≤ a.val) (ham : a.val ≤ m) (hm : m + xs.length < 2 ^ 24) :
+    (xs.foldl add a).isFin = true ∧ 0 ≤ (xs.foldl add a).val ∧ (xs.foldl add a).val ≤ (m + xs.length : ℕ) := by
+  induction xs generalizing a m with
+  | nil => simpa using ⟨ha, ha0, ham⟩
+  | cons x xs ih =>
+    obtain ⟨xf, x0, x1⟩ := hx x (by simp)
+    have hlen : m + 1 + xs.length < 2 ^ 24 := by simp at hm; omega
+    have hm' : ((m:ℚ)) + 1 < 2 ^ 24 := by
+      have : m + 1 < 2 ^ 24 := by omega
+      exact_mod_cast this
+    have hsum : |a.val + x.val| ≤ 2 ^ (127:ℤ) := by
+      rw [abs_of_nonneg (by linarith)]
+      calc a.val + x.val ≤ m + 1 := by linarith
+        _ ≤ 2 ^ 24 := le_of_lt hm'
+        _ ≤ 2 ^ (127:ℤ) := by norm_num
+    obtain ⟨s1, s2⟩ := val_add ha xf hsum
+    have hrep : Rep (((m + 1 : ℕ) : ℤ) : ℚ) := rep_int (by
+      rw [abs_of_nonneg (by positivity)]
+      have : m + 1 < 2 ^ 24 := by omega
+      exact_mod_cast this)
+    have hup : (add a x).val ≤ ((m + 1 : ℕ) : ℚ) := by
+      rw [s2]
+      have := rnd_le_of_le (x := a.val + x.val) (r := (((m + 1 : ℕ) : ℤ) : ℚ)) (by push_cast; linarith) hrep
+      simpa using this
+    have hlo : 0 ≤ (add a x).val := by rw [s2]; exact rnd_nonneg (by linarith)
+    have := ih (fun y hy => hx y (by simp [hy])) (add a x) (m + 1) s1 hlo hup hlen
+    simp only [List.foldl_cons, List.length_cons]
+    have e : m + 1 + xs.length = m + (xs.length + 1) := by omega
+    rw [e] at this
+    exact this
+
+/-- **monotone**: raising any of the summands (and/or the start value) never lowers the f32 sum -/
+theorem fold_mono (xs ys : List F32) (h : List.Forall₂ (fun x y => x.val ≤ y.val) xs ys)
+    (hx : ∀ x ∈ xs, Unit01 x) (hy : ∀ y ∈ ys, Unit01 y) (a b : F32) (m : ℕ)
+    (ha : a.isFin = true) (hb : b.isFin = true) (ha0 : 0 ≤ a.val) (hab : a.val ≤ b.val) (hbm : b.val ≤ m)
+    (hm : m + xs.length < 2 ^ 24) :
+    (xs.foldl add a).val ≤ (ys.foldl add b).val := by
+  induction h generalizing a b m with
+  | nil => simpa using hab
+  | cons hxy hrest ih =>
+    rename_i x y xs' ys'
+    obtain ⟨xf, x0, x1⟩ := hx x (by simp)
+    obtain ⟨yf, y0, y1⟩ := hy y (by simp)
+    have hm1 : m + 1 < 2 ^ 24 := by simp at hm; omega
+    have hmq : ((m:ℚ)) + 1 < 2 ^ 24 := by exact_mod_cast hm1
+    have big : ∀ u w : ℚ, 0 ≤ u → u ≤ m → 0 ≤ w → w ≤ 1 → |u + w| ≤ 2 ^ (127:ℤ) := by
+      intro u w hu0 hum hw0 hw1
+      rw [abs_of_nonneg (by linarith)]
+      calc u + w ≤ m + 1 := by linarith
+        _ ≤ 2 ^ 24 := le_of_lt hmq
+        _ ≤ 2 ^ (127:ℤ) := by norm_num
+    obtain ⟨s1, s2⟩ := val_add ha xf (big _ _ ha0 (by linarith) x0 x1)
+    obtain ⟨t1, t2⟩ := val_add hb yf (big _ _ (by linarith) hbm y0 y1)
+    have hstep : (add a x).val ≤ (add b y).val := by rw [s2, t2]; exact rnd_mono (by linarith)
+    have hrep : Rep (((m + 1 : ℕ) : ℤ) : ℚ) := rep_int (by
+      rw [abs_of_nonneg (by positivity)]; exact_mod_cast hm1)
+    have hup : (add b y).val ≤ ((m + 1 : ℕ) : ℚ) := by
+      rw [t2]
+      have := rnd_le_of_le (x := b.val + y.val) (r := (((m + 1 : ℕ) : ℤ) : ℚ)) (by push_cast; linarith) hrep
+      simpa using this
+    have hlo : 0 ≤ (add a x).val := by rw [s2]; exact rnd_nonneg (by linarith)
+    simp only [List.foldl_cons]
+    exact ih (fun z hz => hx z (by simp [hz])) (fun z hz => hy z (by simp [hz])) (add a x) (add b y) (m + 1)
+      s1 t1 hlo hstep hup (by simp at hm ⊢; omega)
+
+theorem sumInit : ofBits Gen.sumInitBits = .fin 0 true := by decide +kernel
+
+/-- `Iterator::sum` of samples in [0,1] is monotone in every sample -/
+theorem fsum_mono (xs ys : List F32) (h : List.Forall₂ (fun x y => x.val ≤ y.val) xs ys)
+    (hx : ∀ x ∈ xs, Unit01 x) (hy : ∀ y ∈ ys, Unit01 y) (hn : xs.length < 2 ^ 24) :
+    (Ribbon.fsum xs).val ≤ (Ribbon.fsum ys).val := by
+  unfold Ribbon.fsum
+  rw [sumInit]
+  exact fold_mono xs ys h hx hy _ _ 0 rfl rfl (by simp) (by simp) (by simp) (by simpa using hn)
+
+/-! ### the averaged window holds samples of the current press only -/
+
+/-- the last `k` elements of a list -/
+def lastN (k : ℕ) (l : List F32) : List F32 := l.drop (l.length - k)
+
+theorem lastN_length (k : ℕ) (l : List F32) : (lastN k l).length = min l.length k := by
+  simp [lastN]; omega
+
+theorem lastN_append_of_le (k : ℕ) (pre run : List F32) (h : k ≤ run.length) : lastN k (pre ++ run) = lastN k run := by
+  unfold lastN
+  rw [List.length_append]
+  have e1 : pre.length + run.length - k = pre.length + (run.length - k) := by omega
+  rw [e1, List.drop_length_add_append]
+
+/-- writing to the bounded queue keeps "the last `cap` of everything written" -/
+theorem write_lastN (b : HistBuf) (w : List F32) (x : F32) (hcap : 1 ≤ b.cap) (h : b.items = lastN b.cap w) :
+    (b.write x).items = lastN b.cap (w ++ [x]) ∧ (b.write x).cap = b.cap := by
+  have hl := lastN_length b.cap w
+  unfold HistBuf.write
+  by_cases hlt : b.items.length < b.cap
+  · rw [if_pos hlt]
+    refine ⟨?_, rfl⟩
+    show b.items ++ [x] = lastN b.cap (w ++ [x])
+    rw [h] at hlt ⊢
+    rw [hl] at hlt
+    have hw : w.length < b.cap := by omega
+    unfold lastN
+    have e1 : w.length - b.cap = 0 := by omega
+    have e2 : (w ++ [x]).length - b.cap = 0 := by simp; omega
+    rw [e1, e2]; simp
+  · rw [if_neg hlt]
+    refine ⟨?_, rfl⟩
+    show b.items.tail ++ [x] = lastN b.cap (w ++ [x])
+    rw [h] at hlt ⊢
+    rw [hl] at hlt
+    have hw : b.cap ≤ w.length := by omega
+    unfold lastN
+    have e2 : (w ++ [x]).length - b.cap = (w.length - b.cap) + 1 := by simp; omega
+    rw [e2, List.drop_append_of_le_length (by omega), List.tail_drop]
+
+/-- ghost state: `run` = the samples written to the buffer during the current unbroken in-range run,
+`all` = everything ever written -/
+structure Ghost (r : Ribbon) (all run : List F32) : Prop where
+  cap : 1 ≤ r.buff.cap
+  items : r.buff.items = lastN r.buff.cap all
+  suffix : ∃ pre, all = pre ++ run
+  written : r.written = min run.length r.buff.cap
+
+/-- **window identity.**  If an in-range poll recomputes the position (the write counter reaches the capacity), the
+list it averages is the oldest `capacity − discard` of the last `capacity` samples written **in the current run**. -/
+theorem window_is_current_run (r : Ribbon) (all run : List F32) (g : Ghost r all run) (x : F32)
+    (hin : lt x r.boundary = true) (hign : r.ignore ≤ min (r.received + 1) r.ignore)
+    (hfull : min (r.written + 1) r.buff.cap = r.buff.cap) :
+    ((r.buff.write x).oldestOrdered).take (r.buff.cap - r.discard) =
+      (lastN r.buff.cap (run ++ [x])).take (r.buff.cap - r.discard) ∧
+    Ghost { r with buff := r.buff.write x, written := min (r.written + 1) r.buff.cap } (all ++ [x]) (run ++ [x]) := by
+  obtain ⟨hcap, hitems, ⟨pre, hpre⟩, hwr⟩ := g
+  obtain ⟨hw1, hw2⟩ := write_lastN r.buff all x hcap hitems
+  have hrunlen : r.buff.cap ≤ (run ++ [x]).length := by
+    simp only [List.length_append, List.length_singleton]
+    rw [hwr] at hfull; omega
+  have heq : lastN r.buff.cap (all ++ [x]) = lastN r.buff.cap (run ++ [x]) := by
+    rw [hpre, List.append_assoc]; exact lastN_append_of_le _ _ _ hrunlen
+  refine ⟨by show (r.buff.write x).items.take _ = _; rw [hw1, heq], ?_⟩
+  refine ⟨by show 1 ≤ (r.buff.write x).cap; rw [hw2]; exact hcap, by show (r.buff.write x).items = lastN (r.buff.write x).cap (all ++ [x]); rw [hw2]; exact hw1,
+    ⟨pre, by rw [hpre, List.append_assoc]⟩, ?_⟩
+  show min (r.written + 1) r.buff.cap = min (run ++ [x]).length (r.buff.write x).cap
+  rw [hw2, hwr]; simp; omega
+
+/-- an out-of-range poll ends the run: the ghost run restarts empty -/
+theorem ghost_out (r : Ribbon) (all run : List F32) (g : Ghost r all run) (x : F32) (hin : lt x r.boundary = false) :
+    ∃ r', r.poll x = some r' ∧ Ghost r' all [] ∧ r'.current = r.current := by
+  unfold Ribbon.poll
+  simp only [hin, Bool.false_eq_true, ↓reduceIte]
+  refine ⟨_, rfl, ⟨?_, ?_, ⟨all, by simp⟩, ?_⟩, ?_⟩ <;> cases hp : r.pressing <;> simp [g.cap, g.items]
+
+/-! ### range of `value()` -/
+
+/-- the pull-up correction keeps a position in [0,1] inside [0,1] when `0 ≤ K ≤ 1` -/
+theorem correction_range (a K : F32) (ha : a.isFin = true) (hK : K.isFin = true) (a0 : 0 ≤ a.val) (a1 : a.val ≤ 1)
+    (harep : rnd a.val = a.val) (K0 : 0 ≤ K.val) (K1 : K.val ≤ 1) :
+    let c := sub a (mul (sub a (mul a a)) K)
+    c.isFin = true ∧ 0 ≤ c.val ∧ c.val ≤ 1 := by
+  have small : ∀ u : ℚ, |u| ≤ 1 → |u| ≤ 2 ^ (127:ℤ) := fun u h => le_trans h (by norm_num)
+  have habs : ∀ u : ℚ, 0 ≤ u → u ≤ 1 → |u| ≤ 1 := fun u h0 h1 => by rw [abs_of_nonneg h0]; exact h1
+  -- a²
+  have sq0 : 0 ≤ a.val * a.val := by positivity
+  have sq1 : a.val * a.val ≤ a.val := by nlinarith
+  obtain ⟨m1, m2⟩ := val_mul ha ha (small _ (habs _ sq0 (by linarith)))
+  have q0 : 0 ≤ (mul a a).val := by rw [m2]; exact rnd_nonneg sq0
+  have q1 : (mul a a).val ≤ a.val := by
+    calc (mul a a).val = rnd (a.val * a.val) := m2
+      _ ≤ rnd a.val := rnd_mono sq1
+      _ = a.val := harep
+  -- a − a²
+  obtain ⟨s1, s2⟩ := val_sub ha m1 (small _ (habs _ (by linarith) (by linarith)))
+  have d0 : 0 ≤ (sub a (mul a a)).val := by rw [s2]; exact rnd_nonneg (by linarith)
+  have d1 : (sub a (mul a a)).val ≤ a.val := by
+    calc (sub a (mul a a)).val = rnd (a.val - (mul a a).val) := s2
+      _ ≤ rnd a.val := rnd_mono (by linarith)
+      _ = a.val := harep
+  -- (a − a²)·K
+  have p0 : 0 ≤ (sub a (mul a a)).val * K.val := by positivity
+  have p1 : (sub a (mul a a)).val * K.val ≤ a.val := by nlinarith
+  obtain ⟨e1, e2⟩ := val_mul s1 hK (small _ (habs _ p0 (by linarith)))
+  have e0 : 0 ≤ (mul (sub a (mul a a)) K).val := by rw [e2]; exact rnd_nonneg p0
+  have e1' : (mul (sub a (mul a a)) K).val ≤ a.val := by
+    calc (mul (sub a (mul a a)) K).val = rnd ((sub a (mul a a)).val * K.val) := e2
+      _ ≤ rnd a.val := rnd_mono p1
+      _ = a.val := harep
+  -- a − e
+  obtain ⟨c1, c2⟩ := val_sub ha e1 (small _ (habs _ (by linarith) (by linarith)))
+  refine ⟨c1, by rw [c2]; exact rnd_nonneg (by linarith), ?_⟩
+  rw [c2]; exact rnd_le_of_le (by linarith) rep_one
+
+/-- **`0 ≤ value() ≤ 1`** for a non-negative stored position and a boundary in (0, 1] -/
+theorem value_range (r : Ribbon) (hc : r.current.isFin = true) (hb : r.boundary.isFin = true)
+    (c0 : 0 ≤ r.current.val) (c1 : r.current.val ≤ 1) (b0 : 2 ^ (-100:ℤ) ≤ r.boundary.val) :
+    r.value.isFin = true ∧ 0 ≤ r.value.val ∧ r.value.val ≤ 1 := by
+  have bpos : 0 < r.boundary.val := lt_of_lt_of_le (by positivity) b0
+  have hq : |r.current.val / r.boundary.val| ≤ 2 ^ (127:ℤ) := by
+    rw [abs_of_nonneg (by positivity), div_le_iff₀ bpos]
+    calc r.current.val ≤ 1 := c1
+      _ = 2 ^ (127:ℤ) * 2 ^ (-127:ℤ) := by norm_num
+      _ ≤ 2 ^ (127:ℤ) * r.boundary.val := by
+          apply mul_le_mul_of_nonneg_left _ (by positivity)
+          exact le_trans (by norm_num) b0
+  obtain ⟨d1, d2⟩ := val_div hc hb (ne_of_gt bpos) hq
+  have q0 : 0 ≤ (div r.current r.boundary).val := by rw [d2]; exact rnd_nonneg (by positivity)
+  unfold Ribbon.value
+  cases hd : div r.current r.boundary with
+  | nan => rw [hd] at d1; simp at d1
+  | inf s => rw [hd] at d1; simp at d1
+  | fin q nz =>
+    rw [hd, val_fin] at q0
+    by_cases hz : q = 0
+    · subst hz
+      have : ¬ ((1:ℚ) < 0) := by norm_num
+      cases nz <;> simp [fmin, mixedZeros, lt, one, this]
+    · have hne : (q == 0) = false := by simpa using hz
+      by_cases h1 : (1:ℚ) < q
+      · simp [fmin, mixedZeros, lt, one, hne, h1]
+      · simp only [fmin, mixedZeros, lt, one, hne, Bool.false_and, Bool.false_eq_true, ↓reduceIte, h1, decide_false]
+        exact ⟨rfl, q0, not_lt.mp h1⟩
+
+/-- **retention**: a poll that does not recompute the position leaves `value()` untouched -/
+theorem retained (r r' : Ribbon) (x : F32) (h : r.poll x = some r') (hno : r'.pressing = false ∨ r'.written < r'.buff.cap) :
+    r'.current = r.current ∧ r'.boundary = r.boundary ∧ r'.value = r.value := by
+  have key : r'.current = r.current ∧ r'.boundary = r.boundary := by
+    unfold Ribbon.poll at h
+    by_cases hin : lt x r.boundary = true
+    · simp only [hin, ↓reduceIte] at h
+      by_cases hign : r.ignore ≤ min (r.received + 1) r.ignore
+      · simp only [hign, ↓reduceIte] at h
+        by_cases hfull : (min (r.written + 1) (r.buff.write x).capacity == (r.buff.write x).capacity) = true
+        · simp only [hfull, ↓reduceIte] at h
+          split at h
+          · simp at h
+          · -- recomputed: then the result is pressing with a full counter, contradicting `hno`
+            exfalso
+            simp only [Option.some.injEq] at h
+            have hw : min (r.written + 1) (r.buff.write x).capacity = (r.buff.write x).capacity := by simpa using hfull
+            rcases hno with hp | hlt
+            · cases hpr : r.pressing <;> simp [hpr] at h <;> (subst h; simp at hp)
+            · cases hpr : r.pressing <;> simp [hpr] at h <;> (subst h; simp [HistBuf.capacity] at hlt hw; omega)
+        · simp only [hfull, Bool.false_eq_true, ↓reduceIte, Option.some.injEq] at h
+          subst h; exact ⟨rfl, rfl⟩
+      · simp only [hign, ↓reduceIte, Option.some.injEq] at h
+        subst h; exact ⟨rfl, rfl⟩
+    · have hin' : lt x r.boundary = false := by simpa using hin
+      simp only [hin', Bool.false_eq_true, ↓reduceIte, Option.some.injEq] at h
+      subst h; cases hp : r.pressing <;> simp
+  exact ⟨key.1, key.2, by unfold Ribbon.value; rw [key.1, key.2]⟩
+
+/-- the average of a window of samples in [0,1] is a representable value in [0,1] -/
+theorem average_range (w : List F32) (hw : ∀ x ∈ w, Unit01 x) (hn1 : 1 ≤ w.length) (hn : w.length < 2 ^ 24) :
+    let a := div (Ribbon.fsum w) (ofNat w.length)
+    a.isFin = true ∧ 0 ≤ a.val ∧ a.val ≤ 1 ∧ rnd a.val = a.val := by
+  obtain ⟨s1, s2, s3⟩ := fold_bounded w hw (.fin 0 true) 0 rfl (by simp) (by simp) (by simpa using hn)
+  obtain ⟨n1, n2⟩ := ofNat_fin w.length hn
+  have hnpos : (0:ℚ) < w.length := by exact_mod_cast hn1
+  have hfs : Ribbon.fsum w = w.foldl add (.fin 0 true) := by unfold Ribbon.fsum; rw [sumInit]
+  simp only [Nat.zero_add] at s3
+  have hq1 : (w.foldl add (.fin 0 true)).val / (w.length : ℚ) ≤ 1 := by rw [div_le_one hnpos]; exact s3
+  have hq0 : 0 ≤ (w.foldl add (.fin 0 true)).val / (w.length : ℚ) := by positivity
+  obtain ⟨d1, d2⟩ := val_div (x := w.foldl add (.fin 0 true)) (y := ofNat w.length) s1 n1 (by rw [n2]; exact ne_of_gt hnpos)
+    (by rw [n2, abs_of_nonneg hq0]; exact le_trans hq1 (by norm_num))
+  rw [n2] at d2
+  rw [hfs]
+  refine ⟨d1, by rw [d2]; exact rnd_nonneg hq0, by rw [d2]; exact rnd_le_of_le hq1 rep_one, by rw [d2]; exact rnd_idem _⟩
+
+/-- **recomputed position**: average + correction of a window of samples in [0,1] lies in [0,1] whenever the
+correction constant does (pull-up resistance at least the divider resistance) -/
+theorem recomputed_range (w : List F32) (hw : ∀ x ∈ w, Unit01 x) (hn1 : 1 ≤ w.length) (hn : w.length < 2 ^ 24)
+    (K : F32) (hK : K.isFin = true) (K0 : 0 ≤ K.val) (K1 : K.val ≤ 1) :
+    let a := div (Ribbon.fsum w) (ofNat w.length)
+    let c := sub a (mul (sub a (mul a a)) K)
+    c.isFin = true ∧ 0 ≤ c.val ∧ c.val ≤ 1 := by
+  obtain ⟨a1, a2, a3, a4⟩ := average_range w hw hn1 hn
+  exact correction_range _ K a1 hK a2 a3 a4 K0 K1
+
+/-- non-vacuity: the mean of three samples 0.25, 0.5, 0.75 with K = 0 is exactly 0.5 -/
+example : (div (Ribbon.fsum [ofBits 0x3e800000, ofBits 0x3f000000, ofBits 0x3f400000]) (ofNat 3)) = ofBits 0x3f000000 := by
+  decide +kernel
+
 end C16
